@@ -20,3 +20,4 @@ for c in "$@"; do
   (cd /verif && ./vcheck "$c" quick 2>&1 | grep -aE "^VIOLATION|^KNOWN|class:|tier:|MACHINERY" | cut -c1-230 | head -8; echo "[$c exit=${PIPESTATUS[0]}]")
 done
 cd /repo && git checkout -q -- . && git status --short | head -2
+git -C /verif checkout -q -- evidence 2>/dev/null  # evidence written by runs against a changed tree is not evidence
